@@ -72,6 +72,56 @@ TEXT = {
         "note": TB + "Modelled rather than verified: the checkers and util.AttachmentsMap (hand model, differential tie).",
         "technique": "Lean 4 proof (dedup fold = first-unsuppressed-reference specification; allow-list = union) + whole-program differential correspondence",
     },
+    "C06": {
+        "level": 'PARTIAL proof: table theorems decided over the regenerated T3/T4 (every fact field exported and gob-transmissible; one distinct fact type per analyzer; no data-dependent return precedes ExportPackageFact) plus import_uniform / depends_only_on_direct_imports over the model; what the model cannot exhibit (gob bytes, vetx files, the drivers) is exercised: standalone ./..., go vet -vettool, leaf-only, random subsets / orders, in-process with the gob sanity check must all report the same.',
+        "note": TB + "Modelled rather than verified: see DESIGN.md §9 / §11.",
+        "technique": 'Lean 4 decide over regenerated tables + index lemmas; driver-differential correspondence (standalone vs go vet vs in-process)',
+    },
+    "C07": {
+        "level": "Theorems: the modelled range computation equals the four scopes (scope_file, scope_decl, scope_stmt: [comment, END of the first node starting after it], scope_line: [line start, comment end] iff code precedes the comment on its line), and ignore_exact_report / ignore_exact_detect: reported = raised and not Suppressed (C16) - with C03/C04 FirstUnsuppressed this is the once-per-file re-reporting. Tied by analysing every generated program with and without its @ignore comments (neutralised in place): markers = model's, removed set = covered-and-matching set, nothing else changes.",
+        "note": TB + "Modelled rather than verified: see DESIGN.md §9 / §11.",
+        "technique": 'Lean 4 proofs (pruned preorder walks under a decidable cut hypothesis; filter = C16 relation) + with/without-comment metamorphic correspondence',
+    },
+    "C08": {
+        "level": 'Theorems: exclude_filter_report (report-time filter with exclusions = unrestricted filter minus matched codes), exclude_commutes_with_dedup (detection-time: excluding a code commutes with the once-per-file deduplication), exclude_all_empty, junk_excludes_nothing (only ALL, the code, its category can match - decided on the regenerated table). Tied through the real binary: exclusion sets over {ALL, categories, codes, junk incl. proper prefixes} by flag and env on programs producing all 16 codes.',
+        "note": TB + "Modelled rather than verified: see DESIGN.md §9 / §11.",
+        "technique": 'Lean 4 proofs (filter commutation) + binary-level differential correspondence against the filtered baseline',
+    },
+    "C09": {
+        "level": 'Theorem no_annotations_no_diagnostics: if no doc line of a scanned top-level declaration begins (after // and blanks) with a lowercase keyword and the direct imports carry no annotations, every walk returns nothing - for every configuration and whatever @ignore comments exist; near_miss_inert bridges to C15. Tied by annotation-free generated programs salted with near-misses at every site and by the real binary over standard-library packages.',
+        "note": TB + "Modelled rather than verified: see DESIGN.md §9 / §11.",
+        "technique": 'Lean 4 proof (emptiness of annotation reading + early returns) + corpus runs of the real binary',
+    },
+    "C10": {
+        "level": 'PARTIAL proof: the partial operations of the modelled code are proven safe (IgnoreSet index lookups in range along every history; no slice of the renderer out of range; line-window indices inside the file); all model functions are total. Crashes are outcomes in the correspondence: both drivers x configurations on generated programs (package-level initialisers first, //line directives, all placements) and the witness corpus; in-process runs wrap every analyzer in recover.',
+        "note": TB + "Modelled rather than verified: see DESIGN.md §9 / §11.",
+        "technique": 'Lean 4 safety lemmas for the modelled partial operations + crash-outcome correspondence (in-process recover, binary exit status / stderr)',
+    },
+    "C11": {
+        "level": "PARTIAL proof: shared_state_justified decided over the regenerated inventory of package-level variables and write sites (only cachedConfig is assigned after init, under configOnce.Do); once_deterministic: for every schedule of N workers doing Once.Do(init); read, every read returns init's value; index and reported-key order independence (C12). The real binary's normalised output is byte-compared across repeated, sequential, permuted, differently scheduled runs; a -race build is search support.",
+        "note": TB + "Modelled rather than verified: see DESIGN.md §9 / §11.",
+        "technique": 'Lean 4: decide over regenerated table + invariant over all interleavings of a small transition system; run-to-run differential correspondence',
+    },
+    "C12": {
+        "level": "Theorems: move_decl / perm_decls (permuting or moving declarations between scanned files permutes the IMM/CTOR diagnostics: each declaration's verdict is local), annotations_order_free and index_order_free (indices depend only on the set of annotations), reported_keys_order_free (a once-per-file key is reported iff it has an unsuppressed use, whatever the order). Blank lines / comments / renaming are tied by the metamorphic layout suite on the real analyzers.",
+        "note": TB + "Modelled rather than verified: see DESIGN.md §9 / §11.",
+        "technique": 'Lean 4 proofs (List.Perm invariance, order-free characterisations) + metamorphic correspondence on layout variants',
+    },
+    "C13": {
+        "level": 'Theorems: classify_respects_identity (typeInfo / varTypeInfo / typeName depend only on the alias-free normal form) and respell_invariant (every per-node verdict of the four checkers is equal for identical types), paren_invariant. Tied by the metamorphic spelling suite: alias, renamed import, parenthesised spellings of every use site must give the same keyed diagnostics as the direct spelling.',
+        "note": TB + "Modelled rather than verified: see DESIGN.md §9 / §11.",
+        "technique": 'Lean 4 proofs (normal form of alias/pointer/named types) + metamorphic correspondence on spelling variants',
+    },
+    "C14": {
+        "level": "Theorems: no_diag_in_excluded (every reported position is a position of a node of a non-skipped file), excluded_inert (analyze is a function of the files the configuration selects), shouldSkip_char, tonl_never_in_tests. Tied under four configurations (one per process): no reported position in an excluded file; a twin whose excluded files' annotations are neutralised reports the same elsewhere; no TONL in test files.",
+        "note": TB + "Modelled rather than verified: see DESIGN.md §9 / §11.",
+        "technique": 'Lean 4 proofs (position provenance through the exactness theorems; congruence over the selected files) + configuration-matrix self-relative correspondence',
+    },
+    "C17": {
+        "level": 'Theorems decided over regenerated tables: codes_documented (emitted codes = documented table), doc_url_by_category (page per category exists in the book), analyzer_owns_category; over the model: render_header, inline_ignore_removes / keeps_others, diag_in_pkg_file. Tied through the real binary: every diagnostic parsed (code, analyzer, file, help link), text-mode exit status, and for a sample incl. all 16 codes the source line gets // @ignore CODE appended and the package is re-analysed.',
+        "note": TB + "Modelled rather than verified: see DESIGN.md §9 / §11.",
+        "technique": 'Lean 4: decide over regenerated tables + model theorems; binary-level parsing and inline-ignore metamorphic correspondence',
+    },
 }
 
 # properties not (yet) claimed, with the reason; anything claimed in registry.PROPS is dropped from this list automatically
